@@ -117,6 +117,19 @@ def _gen_item(rng, i):
         raw = ber.enc_community_message(1, b"public", pdu)
         cut = rng.randint(1, len(raw) - 1)
         return {"cls": "truncated", "src": src, "data": raw[:cut], "vbs": None, "i": i}
+    if r < 0.89:
+        # the envelope (version, matching community, a notification PDU tag with consistent
+        # lengths all the way out) is fine, the PDU's CONTENT is not: cut short inside, or
+        # octets that are no request-id / error fields / binding list
+        body = ber.enc_pdu(pdu)
+        _tag, c0, c1 = ber.read_tlv(body, 0, len(body))
+        content = body[c0:c1]
+        if rng.randrange(2) == 0:
+            bad = content[: rng.randint(0, max(len(content) - 1, 0))]
+        else:
+            bad = bytes(rng.choice((0xFF, 0x9F, 0x1F)) for _ in range(rng.choice((1, 3, 9, 30))))
+        data = ber.tlv(0x30, ber.enc_integer(1) + ber.enc_octets(b"public") + ber.tlv(0xA7, bad))
+        return {"cls": "badbody", "src": src, "data": data, "vbs": None, "i": i}
     if r < 0.93:
         # a well-formed message of ANOTHER SNMP version (a v1 trap-era message, a v3
         # message): not for this v2c listener, must not disturb it
